@@ -36,14 +36,68 @@ func verifSet(key string, fn any, i int) {
 
 
 # ------------------------------------------------------------------ generation
+def _sd(name, fields, comment=()):
+    return {"pkg": "", "name": name, "tparams": [], "doc": ctorgen.doc_text(list(comment)), "comment": list(comment),
+            "fields": fields}
+
+
+def fixed_corpus():
+    """fixed cases at the head of every run.  Zed is declared BEFORE Alpha, which embeds it (the good order), and sorts AFTER
+    it: when the tool picks the types itself (-file= / -type=*) it must take them in declaration order, on a fresh directory
+    AlphaGetter/AlphaSetter embed ZedGetter/ZedSetter"""
+    res = []
+    for i, sel in enumerate(["file", "star"]):
+        zed = _sd("Zed", [ctorgen.fdecl(["z"], ctorgen.T_basic("int"))])
+        mid = _sd("Mike", [ctorgen.fdecl([], ctorgen.T_named("", "Zed")), ctorgen.fdecl(["m"], ctorgen.T_basic("bool"), ["//shoot: get"])])
+        alpha = _sd("Alpha", [ctorgen.fdecl([], ("ptr", ctorgen.T_named("", "Mike")) if i else ctorgen.T_named("", "Zed")),
+                              ctorgen.fdecl(["a"], ctorgen.T_basic("string"))])
+        structs = [zed, mid, alpha] if i else [zed, alpha]
+        pkg = {"name": "g%03d" % i, "structs": structs, "extra_decls": [], "features": {}, "select": sel}
+        res.append(pkg)
+    return res
+
+
+def decl_order_not_sorted(pkg):
+    """some struct embeds (directly) a struct of the package whose name sorts after its own"""
+    own = set(sd["name"] for sd in pkg["structs"])
+    return any(not fd["names"] and ctorgen.short_name(fd["ty"]) in own and ctorgen.short_name(fd["ty"]) > sd["name"]
+               for sd in pkg["structs"] for fd in sd["fields"])
+
+
 def gen_packages(run, n):
     pkgs, stats = [], {"regenerated": 0, "outside_guard_kept": 0, "fatal_expected": 0, "embed_order_class": 0,
-                   "grouped_declarations": 0}
+                   "grouped_declarations": 0, "selected_by_file": 0, "selected_by_star": 0,
+                   "tool_selected_with_embedded_sorting_after_embedder": 0}
+
+    def finish(pkg, classes, fatal=False):
+        pkg["classes"] = classes
+        pkg["complete_order"] = ctoracc.complete_order(pkg, pkg["order"])
+        sel = pkg.get("select") or "list"
+        stats["selected_by_file"] += 1 if sel == "file" else 0
+        stats["selected_by_star"] += 1 if sel == "star" else 0
+        stats["tool_selected_with_embedded_sorting_after_embedder"] += 1 if sel != "list" and decl_order_not_sorted(pkg) else 0
+        stats["outside_guard_kept"] += 1 if "out" in classes else 0
+        stats["embed_order_class"] += 1 if (pkg["rounds"] == 1 and not pkg["complete_order"]) else 0
+        stats["grouped_declarations"] += 1 if pkg.get("groups") else 0
+        stats["fatal_expected"] += 1 if fatal else 0
+        pkgs.append(pkg)
+
+    if n >= 20:
+        for pkg in fixed_corpus():
+            pkg["order"] = [sd["name"] for sd in pkg["structs"]]
+            pkg["rounds"] = 1
+            finish(pkg, [ctoracc.precheck(pkg, sd, pkg["order"]) for sd in pkg["structs"]])
+    forced = len(pkgs) + (4 if n >= 20 else 0)
     k = 0
     while len(pkgs) < n:
         k += 1
         name = "g%03d" % len(pkgs)
+        # the next packages: generated, inside the guard, the tool selects the types (-file= / -type=* alternating) on a
+        # fresh directory, and an embedded struct's name sorts after its embedder's
+        force = len(pkgs) < forced and k < 40 * n
         style = run.rng.random()
+        if force:
+            style = 0.5
         opts = {}
         if style < 0.12:
             opts = dict(p_embed=0.0, p_generic=0.3)
@@ -51,30 +105,32 @@ def gen_packages(run, n):
             opts = dict(p_embed=0.95, nstructs=run.rng.choice([3, 4, 4, 5, 5]))     # chains: several embedded interfaces
         else:
             opts = dict(p_embed=0.8)
-        fatal = run.rng.random() < 0.04
+        fatal = run.rng.random() < 0.04 and not force
         pkg = ctoracc.gen_acc_pkg(run.rng, name, p_exported_dir=0.5 if fatal else 0.0, **opts)
         names = [sd["name"] for sd in pkg["structs"]]
+        r = run.rng.random()
+        sel = "list" if r < 0.76 else ("file" if r < 0.88 else "star")
+        if force:
+            sel = "file" if len(pkgs) % 2 == 0 else "star"
         selected = list(names)
-        if len(names) > 2 and run.rng.random() < 0.2:
+        if sel == "list" and len(names) > 2 and run.rng.random() < 0.2:
             selected.remove(run.rng.choice(names))
         classes = [ctoracc.precheck(pkg, sd, selected) for sd in pkg["structs"]]
+        if force and (set(classes) != {"in"} or not decl_order_not_sorted(pkg)):
+            stats["regenerated"] += 1
+            continue
         if "bad" in classes or (classes.count("out") and run.rng.random() < 0.8):
             stats["regenerated"] += 1
             if k < 60 * n:
                 continue
         order = list(selected)                       # declaration order = dependency order
-        if run.rng.random() < 0.25:
+        if sel == "list" and run.rng.random() < 0.25:
             run.rng.shuffle(order)                   # possibly a struct before one it embeds: the K_embed_order class
-        pkg["order"] = order
-        pkg["rounds"] = 2 if run.rng.random() < 0.2 else 1
+        pkg["order"] = order                         # -file= / -type=*: every struct of the file, in declaration order
+        pkg["select"] = sel
+        pkg["rounds"] = 2 if (sel == "list" and run.rng.random() < 0.2) else 1
         ctoracc.add_groups(run.rng, pkg)
-        pkg["classes"] = classes
-        pkg["complete_order"] = ctoracc.complete_order(pkg, order)
-        stats["outside_guard_kept"] += 1 if "out" in classes else 0
-        stats["embed_order_class"] += 1 if (pkg["rounds"] == 1 and not pkg["complete_order"]) else 0
-        stats["grouped_declarations"] += 1 if pkg.get("groups") else 0
-        stats["fatal_expected"] += 1 if fatal else 0
-        pkgs.append(pkg)
+        finish(pkg, classes, fatal)
     return pkgs, stats
 
 
@@ -138,8 +194,9 @@ def observe(run, shoot, accbin, modname, pkgs, extra_flags=()):
     mod = ctorlib.setup_module(run, modname)
     jobs = []
     for pkg in pkgs:
+        pkg["flags_for_generate_line"] = ["new", "-getset"] + list(extra_flags)
         l2.write_files(mod / pkg["name"], ctoracc.render_go(pkg, modname))
-        args = ["new", "-getset"] + list(extra_flags) + ["-type=" + ",".join(pkg["order"])]
+        args = ctoracc.select_args(pkg, ctoracc.source_name(pkg, modname), ["new", "-getset"] + list(extra_flags))
         pkg["args"] = args
         jobs.append((pkg["name"], args))
     res = ctorlib.run_shoot_pkgs(shoot, mod, jobs)
@@ -285,7 +342,7 @@ def replay_record(pkg, obs, verdict, modname):
             "observed": [obs[(pkg["name"], t)] for t in pkg["order"] if (pkg["name"], t) in obs],
             "verdict": verdict,
             "how": "render the sources into a module that replaces github.com/lopolopen/shoot by the tree under test, run the "
-                   "command in the package directory (%d time(s)), go build; compare the methods declared on each type with "
+                   "command in the package directory, which holds no generated file yet (%d time(s)), go build; compare the methods declared on each type with "
                    "its get/set/getter/setter directives, the method sets of <T>Getter/<T>Setter and *T, and call each setter "
                    "then read every field and getter (expected: coq/Model/CtorGetSet.v)" % pkg["rounds"]}
 
